@@ -67,7 +67,7 @@ enum Step {
 }
 
 fn steps() -> Vec<Step> {
-    vec![Step::F("a"), Step::F("A"), Step::F("ab"), Step::F("b"), Step::F("facts"), Step::N(0), Step::N(1), Step::N(2), Step::N(usize::MAX)]
+    vec![Step::F("a"), Step::F("A"), Step::F("ab"), Step::F("b"), Step::F("facts"), Step::N(0), Step::N(1), Step::N(2), Step::N(usize::MAX), Step::N(11), Step::N(12), Step::F("k1"), Step::F("k10")]
 }
 
 fn roots() -> Vec<RE> {
@@ -156,6 +156,14 @@ pub fn run(tier: Tier) -> i32 {
             instantiate(t, &mut n)
         })
         .collect();
+    // moderate size: a map with 12 keys whose values are 12-element lists of maps
+    {
+        let mut n = 50_000;
+        let wide_list = Tpl::List((0..12).map(|_| Tpl::Map(vec![("a", Tpl::Leaf), ("A", Tpl::Leaf)])).collect());
+        let keys = ["a", "A", "ab", "abc", "b", "facts", "k0", "k1", "k10", "k11", "k2", "z"];
+        inputs.push(instantiate(&Tpl::Map(keys.iter().map(|k| (*k, wide_list.clone())).collect()), &mut n));
+        inputs.push(instantiate(&Tpl::List((0..12).map(|_| wide_list.clone()).collect()), &mut n));
+    }
     inputs.push(RV::Str("scalar".into()));
     inputs.push(RV::Bool(true));
     let max_steps = 3;
@@ -271,7 +279,7 @@ pub fn run(tier: Tier) -> i32 {
     rep.states = inputs.len() as u64 * symtabs.len() as u64;
     rep.transitions = rep.acc.get("executions");
     rep.traces = rep.acc.get("executions");
-    rep.rule = "product enumeration: every nested input built from templates to the stated depth (maps over key sets {}, {a}, {a,A}, {a,A,ab,facts}, lists of length 0..2, None, every leaf a distinct integer) plus scalar inputs x every access path (10 roots: fields incl. near-miss names, `facts`, symbols, function calls; <= 3 steps over 9 field/index steps incl. usize::MAX) x 3 symbol tables; each path is a rule of one ruleset, every outcome compared with the reference resolver; every path text also parsed and compared with the built tree".into();
+    rep.rule = "product enumeration: every nested input built from templates to the stated depth (maps over key sets {}, {a}, {a,A}, {a,A,ab,facts}, lists of length 0..2, None, every leaf a distinct integer) plus scalar inputs x every access path (10 roots: fields incl. near-miss names, `facts`, symbols, function calls; <= 3 steps over 13 field/index steps incl. usize::MAX) x 3 symbol tables; each path is a rule of one ruleset, every outcome compared with the reference resolver; every path text also parsed and compared with the built tree".into();
     rep.assume("map templates use the same sub-template under every key (leaves still distinct), which keeps the input space polynomial");
     rep.finish()
 }
